@@ -70,7 +70,7 @@ func budgetFor(p *PropDef, tier string) time.Duration {
 	if p.QuickBudget > 0 {
 		return p.QuickBudget
 	}
-	return 90 * time.Second
+	return 150 * time.Second
 }
 
 // ---- worker ---------------------------------------------------------------------------
